@@ -91,6 +91,7 @@ func loadState(db dbm.DB, key []byte) *State {
 	}
 	// TODO: ensure that buf is completely read.
 
+	s.restoreProposer(key)
 	return s
 }
 
@@ -124,19 +125,54 @@ func StateDB(config *viper.Viper) dbm.DB {
 func (s *State) Save() {
 	s.mtx.Lock()
 	defer s.mtx.Unlock()
+	s.saveProposer(stateKey)
 	s.db.SetSync(stateKey, s.Bytes())
 }
 
 func (s *State) SaveToKey(key []byte) {
 	s.mtx.Lock()
 	defer s.mtx.Unlock()
+	s.saveProposer(key)
 	s.db.SetSync(key, s.Bytes())
 }
 
 func (s *State) SaveIntermediate() {
 	s.mtx.Lock()
 	defer s.mtx.Unlock()
+	s.saveProposer(stateIntermediateKey)
 	s.db.SetSync(stateIntermediateKey, s.Bytes())
+}
+
+// The proposer chosen by the last IncrementAccum is cached in an unexported field of ValidatorSet and is not part
+// of its wire form; a set read back from disk would name another validator for round 0 than the running nodes do.
+// It is therefore kept next to the state (written first, tagged with the height it belongs to).
+type proposerRecord struct {
+	Height  int64
+	Address []byte
+}
+
+func proposerKeyFor(key []byte) []byte {
+	return append(append([]byte{}, key...), []byte(".proposer")...)
+}
+
+func (s *State) saveProposer(key []byte) {
+	if s.Validators == nil || s.Validators.Size() == 0 {
+		return
+	}
+	rec := proposerRecord{Height: s.LastBlockHeight, Address: s.Validators.Proposer().Address}
+	s.db.SetSync(proposerKeyFor(key), wire.BinaryBytes(rec))
+}
+
+func (s *State) restoreProposer(key []byte) {
+	buf := s.db.Get(proposerKeyFor(key))
+	if len(buf) == 0 || s.Validators == nil {
+		return
+	}
+	var rec proposerRecord
+	if err := wire.ReadBinaryBytes(buf, &rec); err != nil || rec.Height != s.LastBlockHeight {
+		return
+	}
+	s.Validators.SetProposer(rec.Address)
 }
 
 // Load the intermediate state into the current state
